@@ -26,8 +26,8 @@ Non-trivial = e1 differs from the octets consumed (the input really was non-cano
 
 fn parts(t: Tier) -> Vec<Part> {
     let (a, b) = match t {
-        Tier::Quick => (250_000, 300_000),
-        Tier::Thorough => (4_000_000, 5_000_000),
+        Tier::Quick => (750_000, 900_000),
+        Tier::Thorough => (8_000_000, 10_000_000),
     };
     vec![tape("noncanon", a, 900), tape("wire", b, 900)]
 }
